@@ -280,11 +280,20 @@ func New(ctx context.Context, cfg Config) (*Driver, error) {
 	default:
 		sdl.WriteString("type Doc {\n")
 	}
-	sdl.WriteString("  tag: String\n")
+	if cfg.Variant != "wide" {
+		sdl.WriteString("  tag: String\n")
+	}
 	for _, a := range cfg.Ctrs {
 		d.ctrF[a] = ctrFields(a)
 		for _, f := range d.ctrF[a] {
 			fmt.Fprintf(&sdl, "  %s: %s\n", f.Name, f.Decl)
+		}
+	}
+	if cfg.Variant == "wide" {
+		// a document type with more than twenty fields: the short ids of the fields written by the behaviours are spread
+		// over one and two digits (padding fields, never written, sit between the counters and the registers)
+		for i := 1; i <= 17; i++ {
+			fmt.Fprintf(&sdl, "  m_pad%02d: Int\n", i)
 		}
 	}
 	for _, a := range cfg.Regs {
@@ -296,6 +305,9 @@ func New(ctx context.Context, cfg Config) (*Driver, error) {
 			}
 			fmt.Fprintf(&sdl, "  %s: %s\n", f.Name, decl)
 		}
+	}
+	if cfg.Variant == "wide" {
+		sdl.WriteString("  tag: String\n")
 	}
 	sdl.WriteString("}\n")
 	for i := 0; i < cfg.Nodes; i++ {
